@@ -942,6 +942,10 @@ def replay_generic(fn):
         # run the oracle family with the scenario injected as the only candidate
         import types
         saved = globals()["valid_scens"]
+        if not isinstance(sc, dict) or "crop" not in sc or "soil" not in sc:
+            # a pseudo scenario (lattice / table sweep): the oracle family is re-run as it is
+            vs, _ = fn(dict(seed=1, tier="quick", pid=prop))
+            return vs
         globals()["valid_scens"] = lambda *a, **k: [sc]
         try:
             vs, _ = fn(dict(seed=1, tier="quick", pid=prop))
